@@ -158,10 +158,16 @@ def build(r, factors, how):
                 continue
             od[c] = [u, e]
         if how == "CreateDerived":
-            return Quantity.CreateDerived(od)
-        if how == "ObtainQuantity(dict)":
-            return ObtainQuantity(od)
-        return ObtainQuantity([(u, e) for c, (u, e) in od.items()], list(od))
+            q = Quantity.CreateDerived(od)
+        elif how == "ObtainQuantity(dict)":
+            q = ObtainQuantity(od)
+        else:
+            q = ObtainQuantity([v for v in od.values()], list(od))
+        # the caller goes on working with its dict (the next quantity of a series is made by editing it in place):
+        # the strings of the quantity just answered keep describing the quantity just answered
+        for v in od.values():
+            v[1] = v[1] + 3 if v[1] > 0 else v[1] - 3
+        return q
     acc = None
     for c, u, e in factors:
         if how == "Scalar":
